@@ -927,6 +927,91 @@ pub fn run(ctx: &mut Ctx, dom: &str, a: &[Arg]) {
                 modules(ctx, &g, &bi);
             }
         }
+        "bigelf" => {
+            // a boot information whose only tag is an ELF-sections tag of n copies of one section header (n beyond 2^16)
+            let (n, sh, entry) = (a[0].n() as usize, a[1].n() as u32, a[2].b());
+            let es = entry.len();
+            let size = 20 + n * es;
+            let total = 8 + size + 4 + 8;
+            let mut region = Vec::with_capacity(total);
+            region.extend_from_slice(&(total as u32).to_le_bytes());
+            region.extend_from_slice(&0u32.to_le_bytes());
+            region.extend_from_slice(&9u32.to_le_bytes());
+            region.extend_from_slice(&(size as u32).to_le_bytes());
+            region.extend_from_slice(&(n as u32).to_le_bytes());
+            region.extend_from_slice(&(es as u32).to_le_bytes());
+            region.extend_from_slice(&sh.to_le_bytes());
+            for _ in 0..n {
+                region.extend_from_slice(entry);
+            }
+            region.extend_from_slice(&[0, 0, 0, 0]);
+            region.extend_from_slice(&0u32.to_le_bytes());
+            region.extend_from_slice(&8u32.to_le_bytes());
+            let g = Guarded::new(&region, 0, ctx.place_end);
+            drop(region);
+            let r = guard(|| unsafe { BootInformation::load(g.ptr.cast::<BootInformationHeader>()) });
+            let bi = match r {
+                Ok(Ok(bi)) => bi,
+                _ => {
+                    ctx.ln("elf", "noload");
+                    return;
+                }
+            };
+            let t = match guard(|| bi.get_tag::<ElfSectionsTag>()) {
+                Ok(Some(t)) => t,
+                _ => {
+                    ctx.ln("elf", "notag");
+                    return;
+                }
+            };
+            let head = format!(
+                "number_of_sections={} entry_size={} shndx={}",
+                t.number_of_sections(),
+                t.entry_size(),
+                t.shndx()
+            );
+            let it = match guard(|| t.sections()) {
+                Err(()) => {
+                    ctx.ln("elf", format!("{} sections=PANIC", head));
+                    return;
+                }
+                Ok(it) => it,
+            };
+            ctx.ln("elf", format!("{} sections=VAL rem={}", head, it.len()));
+            let total_n = it.len();
+            let table = 28isize;
+            ctx.ln("elf_count", gv(|| t.sections().count()));
+            // last(): the index of the last section yielded (a clone run by hand), checked against last() itself
+            let r = guard(|| {
+                let mut c = t.sections();
+                let mut idx: Option<isize> = None;
+                let mut lastv = None;
+                while let Some(x) = c.next() {
+                    idx = Some((total_n - c.len() - 1) as isize);
+                    lastv = Some(x);
+                }
+                let l = t.sections().last();
+                (idx, l == lastv)
+            });
+            ctx.ln(
+                "elf_last",
+                match r {
+                    Ok((Some(i), true)) => format!("VAL {}", table + i * es as isize),
+                    Ok((None, true)) => "VAL none".to_string(),
+                    Ok((_, false)) => "VAL MISMATCH".to_string(),
+                    Err(()) => "PANIC".to_string(),
+                },
+            );
+            for k in [n.saturating_sub(1), n] {
+                let mut c = t.sections();
+                let v = match guard(|| c.nth(k)) {
+                    Ok(Some(_)) => format!("VAL {}", table + ((total_n - c.len() - 1) as isize) * es as isize),
+                    Ok(None) => "VAL none".to_string(),
+                    Err(()) => "PANIC".to_string(),
+                };
+                ctx.ln("elf_nth", format!("{} {}", k, v));
+            }
+        }
         "tageq" => {
             // `==` / `!=` between the first tags of each kind of two loaded boot informations
             let g1 = Guarded::new(a[0].b(), 0, ctx.place_end);
